@@ -3,7 +3,7 @@ from checks import durab_common as dc
 SPEC = dc.spec(
     "C04", ["C04_contains_process_crash", "C04_contains_process_crash_bytes", "C04_fsynced_record_durable",
             "C04_synced_write_durable", "C04_durable_in_every_image", "C04_refuted", "C04_partial"],
-    "Durab.c04_prop", 3, 30,
+    "Durab.c04_prop", 3, 12,
     level_text="PARTIAL.  Proved in Coq: the power-loss relation (Model/PowerLoss.v on protocol events, Model/FS.v on bytes with "
                "512-byte sector tearing) contains the process crash, so C01-C03's counterexamples are C04's; a WAL record followed by "
                "an fsync of its file and a primary write followed by the checkpoint's sync are in EVERY power-loss image "
@@ -18,7 +18,7 @@ SPEC = dc.spec(
                "relation FS.pl_image has them but no theorem uses it beyond pl_image_process_crash.  Metadata operations are "
                "assumed ordered and durable.",
     design_ref="§6 C04",
-    rule=dc.RULE + "  C04: per history up to 100 power-loss images (1500 thorough): crash points after every ack / primary write / "
+    rule=dc.RULE + "  C04: per history up to 100 power-loss images (600 thorough): crash points after every ack / primary write / "
                    "sync / fsync; lost = every single not-yet-durable write, and pairs among the last four (WAL appends closed "
                    "under 'later appends to the same file are lost too').",
     extra_assume=["power loss = loss of whole system calls that were not followed by fsync (same WAL file) / sync; no tearing, no reordering of metadata"])
